@@ -33,6 +33,16 @@ type Client struct {
 	connMark int
 }
 
+// ControlConn returns the server-side endpoint of the client's first (control) connection.
+func (w *World) ControlConn(c *Client) *vnet.StreamConn {
+	for _, sc := range w.H.Conns[c.connMark:] {
+		if sc.ServerSide && sc.LocalAddr().(*vnet.TCPAddr).Port == sw.BindPort {
+			return sc
+		}
+	}
+	return nil
+}
+
 // InUseWorkConns returns the open server-side connections on the bind port that are not a client's first
 // (control) connection and on which the server has written something (StartWorkConn / visitor answer): the
 // work connections currently carrying a tunnel. Idle pooled work connections are not included.
